@@ -74,6 +74,81 @@ CLAIMS = {
         "identity/annihilator laws of everywhere/nowhere. Does NOT decide mesh booleans or distances numerically.",
         "DESIGN.md section 3 C16",
     ),
+    "C09": (
+        "PEG grammar IR analysis (keyword-marker closure of Scenic alternatives), visitor classification of the compiler, located-node audit of grammar actions",
+        "Decides that no Scenic alternative exposed to inherited Python rules can capture plain Python without a Scenic keyword (frozen, "
+        "reasoned exceptions), that the compiler's Python-node visitors are the identity outside Scenic contexts and only perform the documented "
+        "rewrites with copied locations, and that every grammar action building a located node passes its location. Does NOT decide equality "
+        "with CPython's AST over a corpus (differential testing).",
+        "DESIGN.md section 3 C09",
+    ),
+    "C10": (
+        "exhaustiveness of grammar-built nodes vs compiler visitors, raise/assert audit, token typing of grammar actions and parser helpers, pegen nullable analysis",
+        "Decides that every node the grammar can build is compiled, that parser helpers and the compiler raise only Scenic syntax errors, that "
+        "token-typed values are accessed only through TokenInfo fields (error construction cannot fail), that no repetition ranges over a "
+        "nullable item, and that the veneer is deactivated in a finally. Does NOT decide totality over all byte strings.",
+        "DESIGN.md section 3 C10",
+    ),
+    "C11": (
+        "five-hop operator chain agreement (grammar -> syntax node -> compiler -> veneer -> propositions -> rv_ltl), class tables, monitor protocol and staleness pairing",
+        "Decides operator identity and operand order through all hops for every temporal/Boolean operator, the temporal/non-temporal class "
+        "table with Boolean evaluate(), the monitor protocol (reject on FALSE first in the step, falsy at stop, TRUE initially) and that "
+        "requirements added at run time get monitors. Does NOT decide rv_ltl's finite-trace semantics.",
+        "DESIGN.md section 3 C11",
+    ),
+    "C12": (
+        "statement-order tables over Simulation._run and DynamicScenario._step cross-checked with the manual's numbered list",
+        "Decides the order and once-per-step multiplicity of the landmarks of a time step in code and manual, the once-per-step logs and the "
+        "schedule check. Does NOT decide the exact step at which each duration construct fires.",
+        "DESIGN.md section 3 C12",
+    ),
+    "C13": (
+        "parity composition of compiler ordering and runtime scan, iterator-lifetime and suspension-site rules",
+        "Decides that the latest enabled interrupt clause wins (compiler reversal x runtime scan parity), that blocks resume where they "
+        "stopped, that every suspension is followed by an invariant check, that guards are checked at start and that abandoned sub-behaviours "
+        "are stopped. Does NOT decide behaviour for every interleaving.",
+        "DESIGN.md section 3 C13",
+    ),
+    "C14": (
+        "global write/reset accounting, context-manager restore rule, definite-assignment of cleanup reads, must-use token analysis",
+        "Decides that every veneer state global is reset in the phase that writes it, that context managers restore in finally, that the "
+        "simulation cleanup cannot be skipped or crash on unassigned attributes, that override undo records are kept on every path, and that "
+        "requirement evaluation restores what it rebinds. Does NOT decide third-party simulator cleanup.",
+        "DESIGN.md section 3 C14",
+    ),
+    "C15": (
+        "inter-procedural unordered->ordered taint into the sampling order, RNG save/restore bracket, private generator seeds",
+        "Decides that no hash-ordered collection reaches Scenario.dependencies, that requirement checking is bracketed by save/restore of "
+        "both RNGs, and that internal generators use constant seeds. Does NOT decide bit-identity of third-party numerics.",
+        "DESIGN.md section 3 C15",
+    ),
+    "C17": (
+        "frame typestate over canSee, occluder monotonicity, wrapper/region agreement",
+        "Decides the translate-then-rotate order of frames in visibility, that occluders can only remove rays / return False, that canSee and "
+        "visibleRegion use the same pose and angles, and the occluder plumbing. Does NOT decide ray density sufficiency.",
+        "DESIGN.md section 3 C17",
+    ),
+    "C18": (
+        "writer/reader format symmetry, fail-closed read dataflow, error-conversion wrapping, RNG-free closure of dependency-serialised nodes, sign domain",
+        "Decides struct format/size/tag symmetry of all codecs and headers, that every read fails closed, that decoding errors are "
+        "SerializationErrors, that dependency-serialised nodes are deterministic, that run-time samples are recorded and that divergence is a "
+        "magnitude. Does NOT decide round-trip equality for all programs.",
+        "DESIGN.md section 3 C18",
+    ),
+    "C19": (
+        "guard-dominance and weight-propagation rules over _invokeSubBehavior, shuffle loop shape, runtime sampling sequence",
+        "Decides that only enabled items enter the weighted choice with their own weights, that choose runs one and shuffle each exactly once, "
+        "that an empty eligible set rejects, and that run-time distributions sample immediately from a fresh map and are recorded. Does NOT "
+        "decide numerical probabilities.",
+        "DESIGN.md section 3 C19",
+    ),
+    "C20": (
+        "must-pass-through guard of the cache, byte-layout agreement, reconnection coverage over the class hierarchy",
+        "Decides that the cached network is loaded only after version, map-digest and options-digest checks computed from the file bytes and "
+        "all options, that writer and reader agree on the layout, and that every element-referencing class is reconnected. Does NOT decide "
+        "anything about concrete maps (lookups, link reciprocity, tangents).",
+        "DESIGN.md section 3 C20",
+    ),
 }
 
 NOT_YET = {}
